@@ -120,6 +120,32 @@ def groups(ctx, w, pm):
   st = [s for s in gl.body if isinstance(s, ast.Assign) and norm_text(s.targets[0]).endswith('.program')]
   ok = len(st) == 1 and norm_text(st[0].value) == names[1]
   ctx.ob('GROUP/program', w, st[0] if st else gl, ok, 'the instrument carries the program of its group' if ok else 'the instrument program is not the program of its group')
+  # path-wise: whichever way the instrument object is chosen, it carries the program and the drum flag of its group
+  def given(block):
+    out = {}
+    for s in block:
+      if isinstance(s, ast.Assign) and len(s.targets) == 1:
+        t = s.targets[0]
+        if isinstance(t, ast.Attribute) and isinstance(t.value, ast.Name) and t.attr in ('program', 'is_drum'):
+          out[t.attr] = norm_text(s.value)
+        if isinstance(s.value, ast.Call) and dotted(s.value.func) == 'pretty_midi.Instrument':
+          for pname, a_ in zip(want, s.value.args):
+            if pname in ('program', 'is_drum'):
+              out[pname] = norm_text(a_)
+          for k in s.value.keywords:
+            if k.arg in ('program', 'is_drum'):
+              out[k.arg] = norm_text(k.value)
+    return out
+  head = gl.body[0] if gl.body and isinstance(gl.body[0], ast.If) else None
+  common = given(gl.body)
+  branches = [('new-instrument branch', head.body), ('reuse branch', head.orelse)] if head is not None else [('loop body', [])]
+  for label, blk in branches:
+    got = dict(given(blk))
+    got.update(common)
+    ok = got.get('program') == names[1] and got.get('is_drum') == names[2]
+    ctx.ob('GROUP/key-fields', w, blk[0] if blk else gl, ok, 'on the %s the instrument gets program=%s and is_drum=%s of its group' % (label, names[1], names[2]) if ok else
+           'on the %s the instrument does not receive both the program and the drum flag of its group (gets %s): the group is written with the placeholder\'s values' % (label, got),
+           construct='%s: program and is_drum from the group key' % label)
 
 
 def fresh(ctx, w):
@@ -300,7 +326,10 @@ def minor(ctx, w, r):
   ctx.ob('MINOR/offset', w.module, w.module.assigns['_PRETTY_MIDI_MAJOR_TO_MINOR_OFFSET'][0], off == 12, 'the writer offset folds to 12' if off == 12 else
          'the minor-key offset folds to %r; pretty_midi numbers minor keys 12..23' % (off,), construct='_PRETTY_MIDI_MAJOR_TO_MINOR_OFFSET == 12')
   aug = [s for s in U.walk_stmts(w.node) if isinstance(s, ast.AugAssign) and isinstance(s.op, ast.Add) and norm_text(s.value) == '_PRETTY_MIDI_MAJOR_TO_MINOR_OFFSET']
-  ok = len(aug) == 1 and any(pol and norm_text(t).replace(' ', '') .endswith('.mode==seq_key.MINOR'.replace('seq_key', norm_text(t).split('.')[0])) for (t, pol) in U.enclosing_tests(w.node, aug[0]))
+  def minor_test(t):
+    sides = U.eq_sides(t, lambda a: isinstance(a, ast.Attribute) and a.attr == 'mode', lambda b: isinstance(b, ast.Attribute) and b.attr == 'MINOR')
+    return sides is not None and norm_text(sides[0].value) == norm_text(sides[1].value)
+  ok = len(aug) == 1 and any(pol and minor_test(t) for (t, pol) in U.enclosing_tests(w.node, aug[0]))
   ctx.ob('MINOR/writer-guard', w, aug[0] if aug else w.node, ok, 'the offset is added exactly for MINOR keys' if ok else 'the minor offset is not added exactly under mode == MINOR')
   mods = [n for n in ast.walk(r.node) if isinstance(n, ast.BinOp) and isinstance(n.op, (ast.Mod, ast.FloorDiv)) and norm_text(n.left).endswith('.key_number')]
   vals = {type(n.op).__name__: U.const_value(n.right) for n in mods}
@@ -353,6 +382,7 @@ def tempo(ctx, w):
 
 
 MUTANTS = [
+    Mutant('seed C03_b: the reused placeholder instrument keeps is_drum=False', F, "      placeholder_used = True\n      instrument.is_drum = is_drum\n", "      placeholder_used = True\n", rule='GROUP/key-fields'),
     Mutant('bends grouped without the drum flag', F, "    instrument_events[(seq_bend.instrument, seq_bend.program,\n                       seq_bend.is_drum)]['bends'].append(", "    instrument_events[(seq_bend.instrument, seq_bend.program,\n                       False)]['bends'].append(", rule='GROUP/key'),
     Mutant('controls accumulate under the bends slot', F, "seq_cc.is_drum)]['controls'].append(", "seq_cc.is_drum)]['bends'].append(", rule='GROUP/'),
     Mutant('placeholder reused by every instrument-0 group', F, '    if instr_id > 0 or placeholder_used:', '    if instr_id > 0:', rule='FRESH/'),
